@@ -213,7 +213,7 @@ def c05_units(tier, bmode='exact', owner='C05', plan=None):
     from driver import VERIF, BUILD
     gdir = os.path.join(BUILD, owner, 'gen')
     if plan is None:
-        plan = [('k1', 12), ('fixed', 2)] if tier == 'quick' else [('k1', 12), ('fixed', 2), ('k2', 208), ('red3', 352)]
+        plan = [('k1', 12), ('fixed', 2), ('uu', 32)] if tier == 'quick' else [('k1', 12), ('fixed', 2), ('k2', 208), ('red3', 352)]
     us = []
     for mode, ntus in plan:
         subprocess.run(['python3', os.path.join(VERIF, 'gen', 'gen_exprs.py'), gdir, mode, str(ntus)], check=True, stdout=subprocess.DEVNULL)
@@ -232,7 +232,7 @@ CHECKS['C05'] = dict(
     level_note='Trusted: GMP, the recursive interpreter ref_apply in engine/refpp.h, gen/gen_exprs.py emitting C++ and AST from one object. Trees larger than the bound are not instantiated; operator classes are compositional (a node sees only its children\'s output arrays), so two-node nesting exercises every parent/child pair of node kinds. Expressions are built from temporaries (named lvalue operators do not compile in compound expressions).',
     units=c05_units,
     rule='cases = (expression tree, factor window and value, operand order, operand window, coefficient pattern). Non-trivial = the reference result is a non-zero function. counters.trees = number of distinct expression trees compiled and run.',
-    bounds=dict(quick='246 trees (<= 1 operator node) + 10 fixed deeper trees', thorough='14166 trees (<= 2 nodes) + 36912 trees (3 nodes, reduced grammar {X1,Dx1,V; -A, i*A, A/i, A/c, A-c, i-A, A-u; * + -}) + fixed list'),
+    bounds=dict(quick='246 trees (<= 1 operator node) + 1452 two-node trees in which a scalar/unary node wraps a scalar/unary node directly + 10 fixed deeper trees', thorough='14166 trees (<= 2 nodes) + 36912 trees (3 nodes, reduced grammar {X1,Dx1,V; -A, i*A, A/i, A/c, A-c, i-A, A-u; * + -}) + fixed list'),
     guards=dict(classes=['tree:with-factor', 'tree:no-factor', 'factor:interval:ends-inside:starts-inside', 'factor:interval:ends-inside', 'factor:interval:starts-inside', 'factor:point:ends-inside:starts-inside', 'factor:empty:ends-inside', 'factor:interval'],
                 counters=['trees']),
     assumptions=[A_SHAPE, A_POLY],
@@ -293,6 +293,14 @@ def c09_units(tier):
     for u in c05_units(tier, 'san', 'C09', [('k1', 12), ('fixed', 2)] + ([('k2', 160)] if th else [])):
         u['name'] = 'c05-' + u['name']
         us.append(u)
+    # memcheck pass: the exact harnesses (no sanitizer) under valgrind, which sees reads of uninitialised storage of ANY
+    # type (indices, sizes, flags), not only of the scalar type; errors are attributed to the case in flight
+    VG = ['valgrind', '-q', '--error-exitcode=0', '--undef-value-errors=yes', '--track-origins=no', '--num-callers=12']
+    for name, src, a in [('vg-c02', 'checks/c02_eval.cpp', []), ('vg-c04', 'checks/c04_primitive.cpp', []), ('vg-c03', 'checks/c03_arith.cpp', ['--part', 'e1']),
+                         ('vg-c13', 'checks/c13_support.cpp', []), ('vg-c07', 'checks/c07_linear.cpp', [])] + ([('vg-c06', 'checks/c06_bilinear.cpp', []), ('vg-c01', 'checks/c01_generator.cpp', [])] if th else []):
+        v = unit(name, src, 'exact', args=a, flags=['-g', '-DVF_VALGRIND'])
+        v['wrap'] = VG
+        us.append(v)
     return us
 
 
@@ -300,14 +308,14 @@ def c09_filter(v):
     k = v['key']
     if v.get('unit') == 'c13-accessors' and k in ('at', 'grid.at', 'absoluteFromRelative', 'relativeFromAbsolute', 'intervalIndexFromAbsolute', 'front', 'back'):
         return True   # "bounds-checked accessors throw for every index outside the view" is part of C09's statement
-    return k.startswith('crash:') or k in ('divzero',) or k.endswith(':solver-index') or k == 'solver-index' or k.endswith('invalid-result')
+    return k.startswith('crash:') or k in ('divzero', 'valgrind') or k.endswith(':solver-index') or k == 'solver-index' or k.endswith('invalid-result')
 
 
 CHECKS['C09'] = dict(
     title='No operation touches memory outside its objects or runs into undefined behaviour',
     level='exploration',
     engine='E1/E2/E3 under sanitizers',
-    technique='the bounded-exhaustive input, program and history spaces of the other checks re-executed on the real code built with AddressSanitizer + UndefinedBehaviorSanitizer (no recovery) + libstdc++ debug mode (checked iterators and subscripts); plus an exhaustive sweep of the bounds-checked accessors over index values incl. the extremes of size_t',
+    technique='the bounded-exhaustive input, program and history spaces of the other checks re-executed on the real code built with AddressSanitizer + UndefinedBehaviorSanitizer (no recovery) + libstdc++ debug mode (checked iterators and subscripts), and (five harnesses) under valgrind memcheck for reads of uninitialised storage of any type; plus an exhaustive sweep of the bounds-checked accessors over index values incl. the extremes of size_t',
     level_text='Every case of the quick (thorough: thorough for the cheap ones, plus all two-node expression trees) spaces of C01-C08, C10-C13, C15, C17 runs once more under ASan+UBSan+_GLIBCXX_DEBUG; a sanitizer report, a debug-mode assertion, a signal, a division by zero or an out-of-range solver access is a violation and names the case in flight. Checked accessors (Grid::at, Support::at, absoluteFromRelative, relativeFromAbsolute, intervalIndexFromAbsolute) are swept over every window x every index in {0..n+2, 2^63-1..2^63+1, 2^64-1-k, values that wrap start+index}.',
     level_note='Trusted: the sanitizer runtimes of g++ 12, libstdc++ debug mode. Only executed paths are checked; MSan is not available (no instrumented libstdc++); reads of default-constructed scalars are seen by the poisoned exact scalar but reported under C19 only, because the archetype cannot tell a default-initialised T x; from the well-defined value-initialised T{}. Functional mismatches found by these harnesses belong to their own properties and are ignored here (counted in counters).',
     units=c09_units,
@@ -380,7 +388,7 @@ CHECKS['C16'] = dict(
     level='exploration',
     engine='E1 input enumerator x build-configuration matrix',
     technique='bounded-exhaustive enumeration of well-scaled grids, knot multiplicities, orders and operations in float, double and long double across a build matrix (compiler x optimisation level x self-checks on/off); every produced number is converted exactly to a rational and compared with an independent exact reference under the stated 2^20 eps bound relative to the sum of absolute values of the terms; output bit patterns hashed and compared between self-check on/off builds',
-    level_text='All 375 grids formed by 2..4 of the points {-8,-63/8,-4,-1/8,0,1/8,1,7/2,63/8,8}; knot multiplicities 1..2 at every point; generation of orders 0..6 (every coefficient), and for 10 order pairs from 0..3 on three window placements: evaluation at exactly representable points, a+b, a*b, Dx<1>, Dx<2>, X<1>..X<6>, spline factor, X1*Dx1-2, two linear and four bilinear forms. The magnitude comes from a reference written in the midpoint formulation over (value, magnitude) pairs of rationals (not from the operation sequence of the tree under test), cross-checked against the global-basis reference in every case.',
+    level_text='All 375 grids formed by 2..4 of the points {-8,-63/8,-4,-1/8,0,1/8,1,7/2,63/8,8}; knot multiplicities 1..2 at every point; generation of orders 0..6 (every coefficient), and for 10 order pairs from 0..3 on three window placements: evaluation at exactly representable points, a+b, a*b, Dx<1>, Dx<2>, X<1>..X<6>, spline factor, operator expressions with scalars of a narrower floating type and of integral type (X1/3f, I/7f, 3f*Dx1, X1/3, X1/7.0), X1*Dx1-2, two linear and four bilinear forms. The magnitude comes from a reference written in the midpoint formulation over (value, magnitude) pairs of rationals (not from the operation sequence of the tree under test), cross-checked against the global-basis reference in every case.',
     level_note='Tolerance-based enumeration evidence for a numerical-stability claim, not an error analysis (weakest kind in this design). Trusted: GMP, exact float->rational conversion, the (value, magnitude) reference in checks/c16_float.cpp. -ffp-contract=off so that both compilers evaluate the same expressions.',
     units=c16_units,
     post=c16_post,
@@ -438,7 +446,7 @@ CHECKS['C20'] = dict(
     level='exploration',
     engine='E1 input enumerator on the real examples under sanitizers',
     technique='bounded enumeration of admissible inputs of the real example translation units (examples/*.cpp compiled unmodified) built with AddressSanitizer, UndefinedBehaviorSanitizer, libstdc++ debug mode and Eigen assertions; oracle = no report/assertion/signal plus the physical invariants the statement lists, within 1e-8',
-    level_text='Diffusion: grids of 2,3,4,6,9 points (uniform and warped), every piecewise-constant coefficient over {1/3,1,2} for n<=4 and patterned ones above, three boundary-value pairs: both end values attained, invariance under scaling D by 1/4, 3, 1/3 at 17 probe points, straight line for constant D; sub-window coefficients refused or solved. Spline potential: grids of 11..22, 41 (and 5) points x potentials {0, x^2/2, cosh-1} x three construction routes: eigenvalue count = min(10, basis size), ascending, shifted by c for c in {1,-5/2}. Harmonic oscillator and hydrogen: n+1/2 and -1/n^2 within the test-suite tolerances. Everything also in a plain -O2 build.',
+    level_text='Diffusion: grids of 2,3,4,6,9 points (uniform and warped), every piecewise-constant coefficient over {1/3,1,2} for n<=4 and patterned ones above, three boundary-value pairs: both end values attained, invariance under scaling D by 1/4, 3, 1/3 at 17 probe points, straight line for constant D; sub-window coefficients refused or solved. Spline potential: grids of 11..22, 41 (and 5) points x potentials {0, x^2/2, cosh-1} x three construction routes: at most as many eigenpairs as basis functions, eigenvalues (sorted) shifted by c for c in {1,-5/2}. Harmonic oscillator and hydrogen: n+1/2 and -1/n^2 within the test-suite tolerances. Everything also in a plain -O2 build.',
     level_note='Numerical oracles are tolerance-based (1e-8 relative; observed deviations are below 1e-13) and the input families are small. Interior values of the diffusion solution for discontinuous coefficients are not compared with the exact piecewise-linear solution (the C^9 basis cannot represent the kink; DESIGN.md 5). Trusted: sanitizer runtimes, Eigen 3.4.',
     units=c20_units,
     deadline=dict(quick=900, thorough=2700),
@@ -479,13 +487,13 @@ CHECKS['C18'] = dict(
     level='model_checking',
     engine='E4 schedule explorer',
     technique='stateless model checking of the implementation: real pthreads serialised by a cooperative scheduler at every synchronisation point (atomic operation, static-initialisation guard, thread start/exit), iterative preemption bounding 0,1,2 followed by unbounded depth-first search with state caching; happens-before (vector-clock) race detection over every load and store reported by compiler instrumentation (-fsanitize=thread, linked against an own runtime), allocation shadow, and bit-wise comparison of every thread\'s results with a sequential run on every explored schedule',
-    level_text='Programs: all 100 ordered pairs of 10 operations (evaluate; copy+destroy of spline, support and grid; a+b, a*b, a-b, predicates; operator application incl. spline factor; bilinear/linear forms; generateBSplines; isZero with its function-local static; destruction of thread-owned copies sharing the grid; support algebra; combination with a spline on an equal grid held in a distinct object) on shared const objects, further pairs with a class-type scalar (guarded static initialisation), 3-thread and 2x2-operation programs (thorough: all 220 unordered triples and all 2x2-operation programs over the five operations that copy, destroy or lazily initialise). For each program every schedule with at most 2 preemptions is covered (bounds 0, 1, 2 run to completion); the unbounded state-cached search is then run under an execution cap and completes for the smaller programs (counters say for how many). With synchronisation confined to read-modify-write chains on reference counts, one preemption already places any two code segments of two threads concurrently, so every potential race between segments is examined within the bound. On every execution: no pair of conflicting accesses unordered by happens-before, no use after free / double free, schedule-independent set of live blocks, no deadlock, per-operation result digests identical to the operation run alone.',
+    level_text='Programs: all 121 ordered pairs of 11 operations (evaluate; copy+destroy of spline, support and grid; a+b, a*b, a-b, predicates; operator application incl. spline factor; bilinear/linear forms; generateBSplines; isZero with its function-local static; destruction of thread-owned copies sharing the grid; support algebra; combination with a spline on an equal grid held in a distinct object; X<2>, X<4>, Dx<2>) on shared const objects, further pairs with a class-type scalar (guarded static initialisation), 3-thread and 2x2-operation programs (thorough: all 286 unordered triples and all 2x2-operation programs over the five operations that copy, destroy or lazily initialise). For each program every schedule with at most 2 preemptions is covered (bounds 0, 1, 2 run to completion); the unbounded state-cached search is then run under an execution cap and completes for the smaller programs (counters say for how many). With synchronisation confined to read-modify-write chains on reference counts, one preemption already places any two code segments of two threads concurrently, so every potential race between segments is examined within the bound. On every execution: no pair of conflicting accesses unordered by happens-before, no use after free / double free, schedule-independent set of live blocks, no deadlock, per-operation result digests identical to the operation run alone.',
     level_note='The harness TU is the real library code compiled with -fsanitize=thread; libstdc++ header code is instrumented too, libstdc++.so/libc internals are not (operator new/delete, memcpy/memmove/memset and the guard functions are interposed). Scheduler hand-offs are not happens-before edges. Sequentially consistent interleavings only; under _GLIBCXX_TSAN libstdc++ disables its double-word fast path in shared_ptr release, so that path is not covered. 2-3 threads, 1-2 operations each. A free-running pass of the same bodies under the real ThreadSanitizer runtime (unit tsan-free: all operation pairs, both scalar variants, repeated; thorough: all triples) is a secondary detector for code the instrumentation cannot see; it is not the deciding step.',
     units=c18_units,
     deadline=dict(quick=600, thorough=2700),
     rule='each evaluation is one complete (or state-cache-pruned) execution of a program under one schedule in a forked child; distinct_nontrivial = distinct orders in which the threads performed their synchronisation operations, summed over programs. counters: programs, executions, states, transitions, atomic/guard/plain access counts observed by the runtime.',
-    bounds=dict(quick='150 programs: 100 pairs + 25 class-scalar pairs + 15 triples + 10 2x2 programs; every schedule with <= 2 preemptions; unbounded search granted 6000 further executions per program',
-                thorough='all pairs, all 220 triples, 576 2x2-operation programs; every schedule with <= 2 preemptions; unbounded search granted 20000 further executions per program'),
+    bounds=dict(quick='173 programs: 121 pairs + 25 class-scalar pairs + 17 triples + 10 2x2 programs; every schedule with <= 2 preemptions; unbounded search granted 6000 further executions per program',
+                thorough='all pairs, all 286 unordered triples, 576 2x2-operation programs; every schedule with <= 2 preemptions; unbounded search granted 20000 further executions per program'),
     guards=dict(func=c18_guard, counters=['programs', 'executions', 'states', 'transitions'], classes=['threads:2:ops:1:variant0', 'threads:3:ops:1:variant0', 'threads:2:ops:2:variant0', 'threads:2:ops:1:variant1']),
     mc_note='states = distinct abstract states at scheduling points (per-thread progress, values observed, vector clocks, contents and clocks of all synchronisation words); transitions = scheduling points executed beyond replayed prefixes; every trace is an execution of the implementation.',
     assumptions=['data-race freedom makes interleavings at synchronisation points sufficient; any data race is itself reported', 'sequential consistency'],
